@@ -543,7 +543,36 @@ def rule_r6(p, res):
     r.floor(10, "parameter chains")
 
 
-RULES = [rule_r1, rule_r2, rule_r3, rule_r4, rule_r5, rule_r6]
+def rule_r7(p, res):
+    r = res.rule("C01.R7", "no geometry op or funnel writes into the image it is called on or into its arguments (template mask, transform, point cloud)")
+    from ..effects import get_effects
+    eff = get_effects(p)
+    seen = set()
+    for cn in IMG_CLASSES:
+        c = p.cls(cn)
+        for op in list(OPS) + sorted(FUNNELS):
+            f = p.lookup(c, op)
+            if f is None or (f, c) in seen:
+                continue
+            seen.add((f, c))
+            r.instance("%s@%s" % (f.short, c.name))
+            sm = eff.summary(f, c)
+            for prm in f.params:
+                es = list(sm.on(prm))
+                if prm == f.params[0]:
+                    # lazily creating the (empty) landmark manager is not an observable change
+                    es = [e for e in es if not (e.func is not None and e.func.name == "landmarks" and e.func.is_property())]
+                for e in es[:1]:
+                    where = "%s:%s" % (e.func.short if e.func is not None else "?", getattr(e.node, "lineno", "?"))
+                    r.violation(f, e.node if e.func is f else f.node, "%s (on %s) writes into %s%s (%s at %s): the source image / the caller's template or transform is changed by an operation that "
+                                "returns a new image, so a second use of the same template or image is no longer registered with its landmarks"
+                                % (f.short, c.name, "its receiver" if prm == f.params[0] else "its argument `%s`" % prm, "." + ".".join(map(str, e.path)) if e.path else "", e.kind, where))
+                if not es:
+                    r.ok()
+    r.floor(40, "op/funnel bodies")
+
+
+RULES = [rule_r1, rule_r2, rule_r3, rule_r4, rule_r5, rule_r6, rule_r7]
 
 WITNESSES = [
     Witness("C01.W1", "menpo/image/masked.py", "MaskedImage.warp_to_shape", "mask = self.mask.warp_to_shape(template_shape, transform, warp_landmarks=warp_landmarks, mode=mode, cval=cval)",
@@ -569,4 +598,9 @@ WITNESSES = [
     Witness("C01.T1", "menpo/image/base.py", "Image.mirror", "trans.pseudoinverse()", "trans", kind="T", note="the mirror map is an involution: dropping the inverse changes nothing"),
     Witness("C01.T2", "menpo/image/base.py", "Image.warp_to_shape", "points_to_sample = transform.apply(template_points, batch_size=batch_size)\n        sampled = self.sample(points_to_sample",
             "pts = transform.apply(template_points, batch_size=batch_size)\n        points_to_sample = pts\n        sampled = self.sample(points_to_sample", kind="T"),
+]
+
+WITNESSES += [
+    Witness("C01.W13", "menpo/image/boolean.py", "BooleanImage._build_warp_to_mask", "warped_img = template_mask.copy()", "warped_img = template_mask",
+            rule="C01.R7", construct="_build_warp_to_mask", note="seeded change R3-C01-B"),
 ]
